@@ -27,16 +27,6 @@ structure Final (E F : List (Nat × Nat)) (s t : Nat) (S : List Nat) : Prop wher
   induct : ∀ Q : Nat → Prop, Q s →
     (∀ v w, v ∈ S → Q v → w ∈ S → resB E F v w = true → Q w) → ∀ x ∈ S, Q x
 
-theorem tree_key_ne {E F : List (Nat × Nat)} {s : Nat} :
-    ∀ {rest : List (Nat × Nat)}, Tree E F s rest → ∀ x, hasKey x rest = true → x ≠ s
-  | [], _, x, hx => by simp [hasKey_nil] at hx
-  | (w0, v0) :: rest, ht, x, hx => by
-    rw [hasKey_cons] at hx
-    by_cases h : x = w0
-    · rw [h]; exact ht.1
-    · have : (x == w0) = false := by simpa using h
-      exact tree_key_ne ht.2.2.2.2 x (by simpa [this] using hx)
-
 theorem final_of_finalBfs {E F : List (Nat × Nat)} {nbrs : List (Nat × List Nat)} {s t k : Nat}
     {S : List Nat} (hnb : NbOK E nbrs) (hF : FlowInv E F s t k) (hst : s ≠ t)
     (h : FinalBfs E F nbrs s t S) : Final E F s t S := by
@@ -90,7 +80,7 @@ theorem minEdgeCut_final (input : List (Nat × Nat)) (s t : Nat) (r : EdgeCut)
   have hnb := nbOK_byFirst (edgeSet input)
   unfold minEdgeCut at h
   simp only at h
-  rcases cutLoop_spec hnb hst ((edgeSet input).length + 2) [] 0 (flowInv_nil _ s t) (by omega)
+  rcases cutLoop_spec hnb ((edgeSet input).length + 2) [] 0 (flowInv_nil _ s t) (by omega)
     with ⟨h1, _⟩ | ⟨F', k', seen, h1, h2, h3⟩
   · rw [show symm (edgeSet input) = (edgeSet input).flatMap (fun e => [(e.1, e.2), (e.2, e.1)])
       from rfl] at h1
@@ -100,14 +90,14 @@ theorem minEdgeCut_final (input : List (Nat × Nat)) (s t : Nat) (r : EdgeCut)
     rw [h1] at h; cases h
     exact ⟨k', h2, final_of_finalBfs hnb h2 hst h3, rfl⟩
 
-/-- **Fuel adequacy / totality** of the model of `min_edge_cut` (source ≠ sink): the loops
+/-- **Fuel adequacy / totality** of the model of `min_edge_cut`: the loops
     never run out of fuel; the only panic is `neighbors[&source]` for a source that is not an
     endpoint of any edge. -/
-theorem minEdgeCut_total (input : List (Nat × Nat)) (s t : Nat) (hst : s ≠ t) :
+theorem minEdgeCut_total (input : List (Nat × Nat)) (s t : Nat) :
     minEdgeCut input s t ≠ .err ∧
     ((∃ e ∈ input, e.1 = s ∨ e.2 = s) → ∃ r, minEdgeCut input s t = .ok r) := by
   have hnb := nbOK_byFirst (edgeSet input)
-  have hspec := cutLoop_spec hnb hst ((edgeSet input).length + 2) [] 0 (flowInv_nil _ s t)
+  have hspec := cutLoop_spec hnb ((edgeSet input).length + 2) [] 0 (flowInv_nil _ s t)
     (by omega)
   have hdef : minEdgeCut input s t =
       cutLoop (edgeSet input) (byFirst (symm (edgeSet input))) s t ((edgeSet input).length + 2) [] :=
